@@ -1,4 +1,8 @@
 # feature: a runtime lookahead (?= P) whose nonterminal is also declared as a no-eoi input by the user
+#! pin scanBytes=false
+#! pin caseInsensitive=false
+#! pin nonBacktracking=false
+#! pin tokenColumn=false
 language @NAME@(go);
 
 package = "scratch/@NAME@"
